@@ -247,7 +247,9 @@ class Distribution:
 
         for name, value in self._func.keywords.items():
             first, args = popfirst(args)
-            self._func.keywords[name] = first or kwargs.get(name, value)
+            if first is None:
+                first = value
+            self._func.keywords[name] = kwargs.get(name, first)
             if hasattr(self, "_frozen"):
                 del self._frozen
 
